@@ -274,6 +274,7 @@ struct Rw<'a> {
     asref_key_methods: &'a BTreeSet<String>,
     dyn_params: Vec<BTreeSet<String>>,     // per fn: params of type &mut dyn _
     bufmut_params: Vec<BTreeSet<String>>,  // per fn: params of type &mut BytesMut / &mut Vec<u8>
+    str_params: Vec<BTreeSet<String>>,     // per fn: params of type &str
     closure_ctr: usize,
     file: String,
 }
@@ -562,6 +563,19 @@ impl<'a> VisitMut for Rw<'a> {
                         _ => {}
                     }
                 }
+                // N13: <&str parameter>.len() -> shim with a byte-length contract (vstd's own `str::len` entry carries no
+                // usable postcondition in this version)
+                if mname == "len" && mc.args.is_empty() {
+                    if let Expr::Path(p) = &*mc.receiver {
+                        if let Some(id) = p.path.get_ident() {
+                            if self.str_params.last().map(|s| s.contains(&id.to_string())).unwrap_or(false) {
+                                self.log.push(format!("N13 {}.len() (a &str parameter) -> crate::sp::vp_str_len({})", id, id));
+                                *e = parse_quote!(crate::sp::vp_str_len(#id));
+                                return;
+                            }
+                        }
+                    }
+                }
                 // N13: String::from_utf8_lossy(x).to_string() -> shim (Cow<str> cannot be specified)
                 if mname == "to_string" && mc.args.is_empty() {
                     if let Expr::Call(c) = &*mc.receiver {
@@ -699,8 +713,18 @@ impl<'a> Rw<'a> {
     fn push_params(&mut self, sig: &Signature) {
         let mut d = BTreeSet::new();
         let mut b = BTreeSet::new();
+        let mut st = BTreeSet::new();
         for a in &sig.inputs {
             if let FnArg::Typed(pt) = a {
+                if let (Pat::Ident(pi), Type::Reference(r)) = (&*pt.pat, &*pt.ty) {
+                    if r.mutability.is_none() {
+                        if let Type::Path(tp) = &*r.elem {
+                            if tp.path.is_ident("str") {
+                                st.insert(pi.ident.to_string());
+                            }
+                        }
+                    }
+                }
                 if let (Pat::Ident(pi), Type::Reference(r)) = (&*pt.pat, &*pt.ty) {
                     if r.mutability.is_some() {
                         match &*r.elem {
@@ -721,10 +745,12 @@ impl<'a> Rw<'a> {
         }
         self.dyn_params.push(d);
         self.bufmut_params.push(b);
+        self.str_params.push(st);
     }
     fn pop_params(&mut self) {
         self.dyn_params.pop();
         self.bufmut_params.pop();
+        self.str_params.pop();
     }
 
     /// N6
@@ -1545,6 +1571,7 @@ fn main() {
             asref_key_methods: &asref_methods,
             dyn_params: vec![],
             bufmut_params: vec![],
+            str_params: vec![],
             closure_ctr: 0,
             file: path.to_string(),
         };
